@@ -81,6 +81,27 @@ def run_phase(ctx, res, prop, n_quick=36, n_thorough=400):
         tid = len(traces) + 1
         traces.append({"id": "M%d" % tid, "v1": False, "ev": ev})
         info["M%d" % tid] = inf
+    # outages in a row on one manager: link error, a request whose re-opening fails, a request that repairs - over
+    # a hundred times (budgets and counters of the repair logic must not run out over a lifetime)
+    n = ctx.pick(110, 400)
+    ev, inf = procmgr.run_lifetime(ctx.scratch, "%s_outages" % prop, True, ["linkfault", "reconnfail", "client"] * n, False,
+                                   rng, start_env=(dict(procmgr.GOOD_ENV), "f"), plat="ledger", cfg=0)
+    inf["causes"] = inf["causes"][:12] + ["... %d outages in all" % n]
+    inf["labels"] = inf["labels"][:12]
+    tid = len(traces) + 1
+    traces.append({"id": "M%d" % tid, "v1": False, "ev": ev})
+    info["M%d" % tid] = inf
+    # a device that came back unusable stays so for dozens of requests: every one repeats the bring-up, none may be served
+    for j in range(ctx.pick(2, 6)):
+        hist = procmgr.unsafe_repair_history(rng, False)
+        hist = [hist[0]] + [hist[2]] * ctx.pick(70, 300)
+        ev, inf = procmgr.run_lifetime(ctx.scratch, "%s_unusable_%d" % (prop, j), True, [], False, rng,
+                                       start_env=(dict(procmgr.GOOD_ENV), "f"), plat="ledger", explicit=hist, cfg=0)
+        inf["causes"] = inf["causes"][:6] + ["... %d in all" % len(hist)]
+        inf["labels"] = inf["labels"][:6]
+        tid = len(traces) + 1
+        traces.append({"id": "M%d" % tid, "v1": False, "ev": ev})
+        info["M%d" % tid] = inf
     # every cause under every configuration of the manager (logging to a file, -D, standard output closed)
     plans_all = [json.loads(u) for u in uniq if json.loads(u)["should"]]
     for cause in sorted({c for p in plans_all for c in p["plan"]}):
